@@ -78,11 +78,21 @@ Theorem C18_union_block : forall trials i l, b_bnd i = BUnion l ->
 Proof. exact block_union. Qed.
 Print Assumptions C18_union_block.
 
-(* a condition on a single face is kept, with its position set *)
-Theorem C18_single_face_kept : forall trials i f, b_bnd i = BFace f ->
-  block trials i = [mkBC (b_lhs i) (b_rhs i) (BFace f) (b_attrs i) (Some (index_fn (var i) trials))].
-Proof. exact block_face. Qed.
+(* a condition on a single face becomes one (re-built) condition on that face: same lhs, rhs,
+   order, variable, normal flag, components; position = index of the variable *)
+Theorem C18_single_face_kept : forall trials i f,
+  bc_wf i -> on_trial trials i -> b_bnd i = BFace f ->
+  normalise trials [i] =
+    Ok [mkBC (b_lhs i) (b_rhs i) (BFace f) (b_attrs i) (Some (index_fn (var i) trials))].
+Proof. exact normalise_single_face. Qed.
 Print Assumptions C18_single_face_kept.
+
+(* re-building a condition from its own lhs and components (every kept condition is built
+   this way) preserves all attributes, for every object the constructor makes *)
+Theorem C18_rebuild_preserves : forall i bd p, bc_wf i ->
+  rebuild i bd p = Ok (mkBC (b_lhs i) (b_rhs i) bd (b_attrs i) (Some p)).
+Proof. exact rebuild_spec. Qed.
+Print Assumptions C18_rebuild_preserves.
 
 (* output order = input order expanded *)
 Theorem C18_order_preserved : forall trials b1 c b2 out,
@@ -193,13 +203,15 @@ Theorem C18_non_condition_refused : forall h a l trials tests items,
 Proof. exact equation_new_non_condition_refused. Qed.
 Print Assumptions C18_non_condition_refused.
 
-(* the loop on (mutable, possibly repeated) condition objects computes normalise of their
-   values: same verdict and error, and eq.bc read right after the call is the normalised list *)
+(* the loop on (possibly repeated) condition objects computes normalise of their values: same
+   verdict and error, eq.bc read after the call is the normalised list, and every condition
+   of eq.bc is a new object *)
 Theorem C18_constructor_normalises : forall h a l trials tests refs,
   Forall (fun r => r < length h) refs ->
   let r := equation_new h (FBilinear a) (FLinear l) trials tests (AList (map IRef refs)) in
   match normalise trials (map (get h) refs) with
   | Ok vals => exists e out, snd r = Ok e /\ eq_bc e = Some out /\ read (fst r) out = map Some vals /\
+                             Forall (fun k => length h <= k < length (fst r)) out /\
                              eq_lhs e = FBilinear a /\ eq_rhs e = FLinear l /\
                              eq_trials e = trials /\ eq_tests e = tests
   | Err er => snd r = Err er
@@ -207,26 +219,36 @@ Theorem C18_constructor_normalises : forall h a l trials tests refs,
 Proof. exact equation_new_normalises. Qed.
 Print Assumptions C18_constructor_normalises.
 
-(* ------------------------------------- one condition object used by two equations (C12) *)
-(* full statement "a later constructor call leaves an earlier equation's conditions as they
-   were" is false of the faithful model ... *)
-Theorem C18_shared_condition_refuted :
-  exists h trials1 trials2 tests1 tests2 bc,
-    let r1 := equation_new h (FBilinear 0) (FLinear 1) trials1 tests1 bc in
-    let r2 := equation_new (fst r1) (FBilinear 2) (FLinear 3) trials2 tests2 bc in
-    exists e1 e2 out1, snd r1 = Ok e1 /\ snd r2 = Ok e2 /\ eq_bc e1 = Some out1 /\
-      read (fst r2) out1 <> read (fst r1) out1.
-Proof. exact shared_condition_refuted. Qed.
-Print Assumptions C18_shared_condition_refuted.
+(* ------------------------------------- a constructor call changes no existing object *)
+(* whatever its arguments and its verdict, the constructor only appends to the store: the
+   given conditions and the conditions held by earlier equations keep their values *)
+Theorem C18_constructor_call_keeps : forall h lhs rhs trials tests bc refs,
+  Forall (fun r => r < length h) refs ->
+  read (fst (equation_new h lhs rhs trials tests bc)) refs = read h refs.
+Proof. exact constructor_call_keeps. Qed.
+Print Assumptions C18_constructor_call_keeps.
 
-(* ... and true when the later call is not given the same objects, or puts their unknowns
-   at the same positions *)
-Theorem C18_shared_condition_partial : forall trials2 h1 refs2 out1,
-  Forall (fun r => r < length h1) out1 ->
-  (forall r b, In r out1 -> nth_error h1 r = Some b -> ~ In r refs2 \/ stable trials2 b) ->
-  read (fst (eq_loop trials2 h1 refs2)) out1 = read h1 out1.
-Proof. exact later_call_keeps. Qed.
-Print Assumptions C18_shared_condition_partial.
+(* one condition object used by two equations: the given conditions and the first equation's
+   bc, re-read after the second call, are unchanged (full strength since /repo c2083c1) *)
+Theorem C18_shared_condition_safe : forall h a1 l1 a2 l2 trials1 tests1 trials2 tests2 refs1 bc2,
+  Forall (fun r => r < length h) refs1 ->
+  let r1 := equation_new h (FBilinear a1) (FLinear l1) trials1 tests1 (AList (map IRef refs1)) in
+  let r2 := equation_new (fst r1) (FBilinear a2) (FLinear l2) trials2 tests2 bc2 in
+  read (fst r2) refs1 = read h refs1 /\
+  forall e1 out1, snd r1 = Ok e1 -> eq_bc e1 = Some out1 ->
+    read (fst r2) out1 = read (fst r1) out1.
+Proof. exact shared_condition_safe. Qed.
+Print Assumptions C18_shared_condition_safe.
+
+(* for the record: the loop as it was before c2083c1 (position written into the given object,
+   single-face condition kept as the same object) did not have this property *)
+Theorem C18_shared_condition_before_fix_refuted :
+  exists h trials1 trials2 refs,
+    let r1 := eq_loop_before_fix trials1 h refs in
+    let r2 := eq_loop_before_fix trials2 (fst r1) refs in
+    exists out1, snd r1 = Ok out1 /\ read (fst r2) out1 <> read (fst r1) out1.
+Proof. exact shared_condition_before_fix_refuted. Qed.
+Print Assumptions C18_shared_condition_before_fix_refuted.
 
 (* ------------------------------------------------------------------ non-vacuity *)
 Definition ex_u := mkFn 0 0 "u" false 2.
